@@ -370,6 +370,18 @@ def merge_harness(w, nl, nr, iters, max_len, cut='each'):
         net = binary_setup(ex, w, holder, setup, nl, nr, sl, sr, cut)
         total = sum(len(s) for s in sl + sr)
         out = hlib.drive(ex, nxt, holder, 2 * total + 8)
+        if ex.env.get('native'):
+            # the real binary Start on the same batches in the same arrival order; the (one-line) closure of
+            # Stream::merge -- Left(x) | Right(x) => Some(x), end markers => None -- is applied here
+            out = []
+            for e in native_binstart(ex, net, nl, nr, False, False):
+                if e.variant == 'Item' and isinstance(e.fields[0], Enum) and e.fields[0].name == 'BinaryElement':
+                    if e.fields[0].variant in ('Left', 'Right'):
+                        out.append(hlib.se('Item', e.fields[0].fields[0]))
+                else:
+                    out.append(e)
+        out = [e for e in out if e.variant != 'FlushBatch']
+        ex.env['last_output'] = out
         sx = lambda: {'left': [[repr(e) for e in s] for s in sl], 'right': [[repr(e) for e in s] for s in sr],
                       'output': [repr(e) for e in out]}
         hlib.check_grammar(ex, out, iters, 'merge output')
